@@ -6,7 +6,7 @@ Import ListNotations.
 From GA.Base Require Import Bytes Case Align.
 From GA.Gen Require Import Alpha.
 From GA.Model Require Import Container.
-From GA.Proofs Require Import ContainerProofs ConcatProofs ConcatRefine.
+From GA.Proofs Require Import ContainerProofs ConcatProofs ConcatRefine ContainerAll.
 
 (* The invariant: every index entry designates an object of the list carrying
    that name, every name absent from the index is absent from the list, object
@@ -16,7 +16,7 @@ From GA.Proofs Require Import ContainerProofs ConcatProofs ConcatRefine.
    policies, IgnoreIdentical, Append, AppendSeqIdentifier, Rename, RenameRegexp
    with a literal pattern, CleanNames, TrimNames with any caller map,
    TrimNamesAuto, Sort, ShuffleSequences with any draws, SetSequenceChar, Clone,
-   Clear); FilterLength and Sample are exercised by the correspondence only. *)
+   Clear); FilterLength, Sample and Concat: see C01_invariant_all_successful_histories below. *)
 Theorem C01_invariant_all_histories :
   forall h kind alpha, forallb covered h = true -> Inv (run h (empty_state kind alpha)).
 Proof. intros h kind alpha Hc. apply run_inv; [exact Hc | apply Inv_empty]. Qed.
@@ -86,11 +86,31 @@ Theorem C01_sort_permutes : forall st, Permutation (abs (fst (step st OpSort))) 
 Proof. exact sort_is_permutation. Qed.
 Print Assumptions C01_sort_permutes.
 
-(* Not yet covered by the invariant proof (tied to the code by correspondence
-   only): FilterLength and Sample (they add rows through the sequence bag's
-   method, without the alignment's length check).  Full statement kept visible: *)
-Definition C01_invariant_every_operation_statement : Prop :=
-  forall st op, Inv st -> Inv (fst (step st op)).
+(* FilterLength and Sample (rows re-added through the sequence bag's method, without the alignment's
+   length check) keep the invariant as well: every modelled operation other than Concat does, whatever
+   its arguments ... *)
+Theorem C01_invariant_every_operation :
+  forall st op, covered_all op = true -> Inv st -> Inv (fst (step st op)).
+Proof. exact step_inv_all. Qed.
+Print Assumptions C01_invariant_every_operation.
+
+Theorem C01_every_operation_is_covered_or_concat :
+  forall op, covered_all op = true \/ exists a c, op = OpConcat a c.
+Proof. exact every_op_classified. Qed.
+Print Assumptions C01_every_operation_is_covered_or_concat.
+
+(* ... hence the invariant holds after EVERY finite history of modelled operations in which no
+   concatenation failed (the property speaks of successful operations; a Concat that returns an error
+   may leave rows of different lengths behind) *)
+Theorem C01_invariant_all_successful_histories :
+  forall h kind alpha,
+  (forall pre op post, h = pre ++ op :: post -> (exists a c, op = OpConcat a c) ->
+     snd (step (run pre (empty_state kind alpha)) op) = true) ->
+  Inv (run h (empty_state kind alpha)).
+Proof.
+  intros h kind alpha H. apply run_inv_all; [apply all_allowed_all_iff; exact H | apply Inv_empty].
+Qed.
+Print Assumptions C01_invariant_all_successful_histories.
 
 Example C01_nonvacuous :
   let h := [OpAdd [x61] [x41; x43]; OpAdd [x61] [x47; x47]; OpRename [([x61], [x62])]; OpSort] in
